@@ -10,6 +10,7 @@ injection at every second of a window (removal, with routes, exactly at the firs
 then re-dial); 48 h against an unreachable configured peer (gaps between fresh dials never above one hour)."""
 import os
 import vplib as V
+from checks import cloudcommon
 from checks import noderuns
 
 PID = "C15"
@@ -64,6 +65,8 @@ def run(tier, out):
         "rule": "records by kind: %s; interval records: one per (own timeout, own keepalive, advertised timeouts) scheduling observed on a real node" % kinds,
         "self_test": st,
     }
+    cloudcommon.design(PID, tier, out, cov)
+    cloudcommon.part(PID, tier, out, cov)
     return out.finish("model_checking", cov, assumptions=[
         "'last refresh' of a peer is read from the node's own expiry field (expiry - own timeout); the removal time is judged independently of it",
         "a delay of 0 (keepalive 0: announce on every tick) counts as 'at most one second'",
